@@ -315,8 +315,10 @@ def run_op(s, op, a, tmp, i, rr):
         return s.call('root', _info=dict(i=i), **tkw)
     if api == 'reboot':
         return s.call('reboot', _info=dict(i=i), **tkw)
+    def P(x):
+        return x.encode('utf8') if op.get('path_bytes') else x
     if api in ('stat', 'list'):
-        return s.call(api, a['path'], _info=dict(i=i), **tkw)
+        return s.call(api, P(a['path']), _info=dict(i=i), **tkw)
     cb = op.get('cb')
     log = []
     rr.extra.setdefault('cb', {})[i] = log
@@ -324,19 +326,20 @@ def run_op(s, op, a, tmp, i, rr):
     if api == 'pull':
         if isinstance(op.get('dest'), list):      # ['raise', k]: a sink whose k-th write fails (local I/O error mid-transfer)
             dest = _FailingSink(op['dest'][1])
-            o = s.call('pull', a['path'], dest, progress_callback=cbf, _info=dict(i=i), **tkw)
+            o = s.call('pull', P(a['path']), dest, progress_callback=cbf, _info=dict(i=i), **tkw)
             rr.extra.setdefault('pulled', {})[i] = dest.getvalue()
         elif op.get('dest', 'bytesio') == 'bytesio':
             dest = io.BytesIO()
-            o = s.call('pull', a['path'], dest, progress_callback=cbf, _info=dict(i=i), **tkw)
+            o = s.call('pull', P(a['path']), dest, progress_callback=cbf, _info=dict(i=i), **tkw)
             rr.extra.setdefault('pulled', {})[i] = dest.getvalue()
         else:
             p = os.path.join(tmp, 'dst%d.bin' % i)
-            o = s.call('pull', a['path'], p, progress_callback=cbf, _info=dict(i=i), **tkw)
+            o = s.call('pull', P(a['path']), p, progress_callback=cbf, _info=dict(i=i), **tkw)
             rr.extra.setdefault('pulled', {})[i] = open(p, 'rb').read() if os.path.exists(p) else None
         return o
     if api == 'push':
         local = a['local'] if a.get('local') else io.BytesIO(a['data'])
+        src_kind = op.get('src', 'bytesio')
         kw = dict(tkw)
         if 'st_mode' in op:
             kw['st_mode'] = op['st_mode']
@@ -348,7 +351,7 @@ def run_op(s, op, a, tmp, i, rr):
         elif op.get('cwd') == 'elsewhere':
             os.chdir('/')
         try:
-            return s.call('push', local, a['dpath'], progress_callback=cbf, _info=dict(i=i), **kw)
+            return s.call('push', local, P(a['dpath']) if src_kind != 'dir' else a['dpath'], progress_callback=cbf, _info=dict(i=i), **kw)
         finally:
             os.chdir(cwd0)
     raise ValueError(api)
@@ -508,22 +511,22 @@ def gen_session(rng, idx, big=False, adversarial=False, ops_max=6, allow=('shell
         elif api in ('root', 'reboot'):
             ops.append(dict(api=api))
         elif api == 'stat':
-            ops.append(dict(api='stat', path=rng.choice(['/a', '/sdcard/é', '/' + 'p' * 200]), st=[rng.choice(BOUNDARY32 + [rng.randrange(2 ** 32)]) for _ in range(3)],
+            ops.append(dict(api='stat', path=rng.choice(['/a', '/sdcard/é', '/' + 'p' * 200, '/фото/\u20ac.jpg']), path_bytes=rng.random() < 0.3, st=[rng.choice(BOUNDARY32 + [rng.randrange(2 ** 32)]) for _ in range(3)],
                             cuts=rng.choice(['whole', 'random', 'small', 'bytes1'])))
         elif api == 'list':
             ents = []
             for e in range(rng.choice([0, 1, 2, 5, 40])):
                 name = bytes(rng.randrange(1, 256) for _ in range(rng.choice([1, 2, 8, 255])))
                 ents.append([name.hex(), rng.choice(BOUNDARY32), rng.randrange(2 ** 32), rng.choice(BOUNDARY32)])
-            ops.append(dict(api='list', path='/d%d' % j, entries=ents, cuts=rng.choice(['whole', 'random', 'small'])))
+            ops.append(dict(api='list', path=rng.choice(['/d%d' % j, '/d%d/é€' % j, '/каталог%d' % j]), path_bytes=rng.random() < 0.3, entries=ents, cuts=rng.choice(['whole', 'random', 'small'])))
         elif api == 'pull':
             size = rng.choice([0, 1, 7, 8, 9, 4096, 65535, 65536, 65537, rng.randint(0, 200000)] + ([rng.randint(200000, 3000000)] if big else []))
-            ops.append(dict(api='pull', path='/p%d' % j, size=size, data_sizes=rng.choice([None, 'random']), cuts=rng.choice(['whole', 'random']) if size < 50000 else 'whole',
+            ops.append(dict(api='pull', path=rng.choice(['/p%d' % j, '/sdcard/é%da' % j, '/фото%d.jpg' % j]), path_bytes=rng.random() < 0.3, size=size, data_sizes=rng.choice([None, 'random']), cuts=rng.choice(['whole', 'random']) if size < 50000 else 'whole',
                             dest=rng.choice(['bytesio', 'path']), cb=rng.choice([None, None, 'ok', 'raise'])))
         elif api == 'push':
             chunk = min(65536, maxdata // 2)
             size = rng.choice([0, 1, chunk - 1, chunk, chunk + 1, maxdata - 9, maxdata, maxdata + 9, 2 * chunk + 1, rng.randint(0, 300000)] + ([rng.randint(300000, 3000000)] if big else []))
-            ops.append(dict(api='push', path=rng.choice(['/q', '/sdcard/' + 'n' * rng.randint(1, 900)]), size=size, src=rng.choice(['bytesio', 'path']),
+            ops.append(dict(api='push', path=rng.choice(['/q', '/sdcard/' + 'n' * rng.randint(1, 900), '/sdcard/résumé€.bin']), size=size, src=rng.choice(['bytesio', 'path']),
                             st_mode=rng.choice([0o100644, 33272, 0xFFFFFFFF, 0]), mtime=rng.choice([1, 1500000000, 0xFFFFFFFF, 0]), cb=None))
     spec = dict(seed=rng.randrange(1 << 30), maxdata=maxdata, rid=rng.choice(['plus', 'random', 'high', 'same']), frag=rng.choice(['whole', 'whole', 'random', 'empty']),
                 lid0=rng.choice([None, None, 2 ** 32 - 3, 2 ** 31 - 2, 65534]), ops=ops)
@@ -592,6 +595,8 @@ def sync_traces(rr, spec, inert=None, only=None):
             off = 0
             for r in svc.records:
                 if api != 'push':
+                    if r['id'] in ('RECV', 'LIST', 'STAT'):
+                        tr.append(dict(ev='prx', id=r['id'], specOk=(r['data'] == a['path'].encode('utf8') and r['arg'] == len(r['data']))))
                     continue
                 if r['id'] == 'SEND':
                     if files is not None:
